@@ -14,14 +14,15 @@
 
   Theorems (all for ALL in-range arguments and ALL conforming BMC states; nothing is `_partial`: the sum
   type `Call` has a constructor for every operation of the harness' op table, and every one is proved).
-  1. `write_*`   : `(api_set_X args).run s = (Spec.set_X (denote args) s, ok None)`          (32)
-  2. `read_*`    : `(api_get_X addr).run s = (s, ok (Spec.get_X addr s))`                     (31)
+  1. `write_*`   : `(api_set_X args).run s = (Spec.set_X (denote args) s, ok None)`          (33)
+  2. `read_*`    : `(api_get_X addr).run s = (s, ok (Spec.get_X addr s))`                     (32)
   3. `model_refines_oracle`, `wf_invariant`, `history_refines`, `read_after_history`,
      `read_depends_on_state_only` : the generic step and the induction over histories — the main theorem.
   4. `table_*`   : laws of the generated conversion tables.
   5. counter-examples for the operations that were defective as shipped (LED decoder, port state without link,
-     LAN revision-only mode, rollback status, sensor states while unavailable): the as-shipped model variant
-     does NOT refine the BMC, the intended one does.
+     LAN revision-only mode, rollback status, sensor states while unavailable, HPM.1 component description through
+     `raw_unicode_escape`, fourth request byte of Set Fan Level, OEM link types, reserved state bit 15): the
+     as-shipped model variant does NOT refine the BMC, the intended one does.
 -/
 import PyIpmi.Lemmas.ApiAll
 import PyIpmi.Lemmas.ApiDomain
@@ -128,8 +129,10 @@ theorem write_fru_control (fru opt : Nat) (s : BmcState) (h1 : fru < 256) (h2 : 
 theorem write_fru_control_named (idx fru : Nat) (s : BmcState) (h1 : idx < 4) (h2 : fru < 256) :
     (api_fru_control_named idx fru).run s = (fru_control fru idx s, .ok (if idx = 3 then .bytes [] else .unit)) :=
   fru_control_named_refines idx fru s h1 h2
+/-- set_fan_level(fru_id, fan_level): the override level of that FRU becomes `fan_level`; nothing else of the fan
+tray changes (its local control state stays as it is), whichever revision of PICMG 3.0 the tray implements -/
 theorem write_set_fan_level (fru lvl : Nat) (s : BmcState) (h1 : fru < 256) (h2 : lvl < 256) :
-    (api_set_fan_level fru lvl).run s = (set_fan_level fru lvl (some 0) s, .ok .unit) :=
+    (api_set_fan_level fru lvl).run s = (set_fan_level fru lvl none s, .ok .unit) :=
   set_fan_level_refines fru lvl s h1 h2
 /-- override off / on / blinking (off-duration 1..250, on-duration a byte) and lamp test (< 128), colour a nibble -/
 theorem write_set_led_state (fru led : Nat) (c : LedCmd) (s : BmcState) (h1 : fru < 256) (h2 : led < 256)
@@ -152,6 +155,12 @@ theorem write_set_port_state (iface ch : Nat) (p : Port) (s : BmcState)
     (h : iface < 4 ∧ ch < 64 ∧ p.hasLink = true ∧ p.Wf ∧ p.grouping < 256 ∧ p.state < 256) :
     (api_set_port_state iface ch p).run s = (set_port iface ch p s, .ok .unit) :=
   set_port_state_refines iface ch p s h
+/-- the link type given as ONE number in `link_descr.type` (`LinkDescriptor.TYPE_OEM0` = F0h …, `sig_class` 0):
+the BMC is told exactly that 8-bit link type -/
+theorem write_set_port_state_type8 (iface ch : Nat) (p : Port) (s : BmcState)
+    (h : iface < 4 ∧ ch < 64 ∧ p.hasLink = true ∧ p.Wf ∧ p.grouping < 256 ∧ p.state < 256) :
+    (api_set_port_state_type8 iface ch p).run s = (set_port iface ch p s, .ok .unit) :=
+  set_port_state_type8_refines iface ch p s h
 theorem write_send_channel_power (ch : Nat) (enable : Bool) (lim pri bak : Nat) (s : BmcState)
     (h : ch < 256 ∧ lim < 256 ∧ pri < 256 ∧ bak < 256) :
     (api_send_channel_power ch enable lim pri bak).run s =
@@ -283,6 +292,13 @@ theorem read_query_selftest_results (s : BmcState) (hw : s.Wf) :
 theorem read_query_rollback_status (s : BmcState) :
     api_query_rollback_status.run s = (s, .ok (.rollback s.hpm.rollbackStatus s.hpm.rollbackEstimate)) :=
   query_rollback_status_refines s
+
+/-- HPM.1 Get Component Properties, description string: exactly the characters the IPMC holds for component `id`
+(a backslash is a character like any other); CompletionCodeError(82h) when the component does not exist -/
+theorem read_get_component_description (id : Nat) (s : BmcState) (h : id < 256) (hw : s.Wf) :
+    (api_get_component_description id).run s =
+      present (s, if has_component id s then .text (get_component_description id s) else .error ccHpmInvalidComponent) :=
+  get_component_description_refines id s h (descr_wf id s hw)
 
 /-! ## 3. the generic step and history independence (main theorem) -/
 
@@ -521,6 +537,97 @@ theorem shipped_sensor_reading_wrong :
   · simp [api_get_sensor_reading_shipped, getSensorReading, statesOf, api_eval, rearmedState, run, rearm_sensor, get_sensor,
       fmtSensorReading, dfltSensor, sensorKey, Map.getD, Map.find?, Map.set, b2n]
   · rw [read_get_sensor_reading 7 0 _ (by decide) hw]; decide
+
+/-- an IPMC with three components: "IPMC", `fw\update`, `A\u0042C` (printable ASCII, as HPM.1 asks) -/
+def descrState : BmcState :=
+  { hpm := { components := 7,
+             compDescr := ((({} : Map (List Nat)).set 0 [73, 80, 77, 67]).set 1 [102, 119, 92, 117, 112, 100, 97, 116, 101]).set 2
+               [65, 92, 117, 48, 48, 52, 50, 67] } }
+
+/-- `get_component_property(id, PROPERTY_DESCRIPTION_STRING)` AS SHIPPED runs the description through
+`raw_unicode_escape`: component 1 (`fw\update`) cannot be read at all (UnicodeDecodeError), component 2
+(`A\u0042C`) is reported as `ABC`; the intended operation returns the characters the IPMC holds. -/
+theorem shipped_component_description_wrong :
+    descrState.Wf ∧
+    ((api_get_component_description_shipped 1).run descrState).2 = .pyError "UnicodeDecodeError" ∧
+    ((api_get_component_description_shipped 2).run descrState).2 = .ok (.text [65, 66, 67]) ∧
+    ((api_get_component_description 1).run descrState).2 = .ok (.text [102, 119, 92, 117, 112, 100, 97, 116, 101]) ∧
+    ((api_get_component_description 2).run descrState).2 = .ok (.text [65, 92, 117, 48, 48, 52, 50, 67]) ∧
+    ((api_get_component_description_shipped 0).run descrState).2 = ((api_get_component_description 0).run descrState).2 := by
+  have hw : descrState.Wf :=
+    { wf_init with
+      hpmComponents := by decide
+      hpmDescr := (((Map.All.empty _).set _ _ (descrWfB_sound (by decide))).set _ _ (descrWfB_sound (by decide))).set _ _
+        (descrWfB_sound (by decide)) }
+  refine ⟨hw, by decide, by decide, ?_, ?_, by decide⟩
+  · rw [read_get_component_description 1 _ (by decide) hw]; decide
+  · rw [read_get_component_description 2 _ (by decide) hw]; decide
+
+/-- `set_fan_level(fru_id, fan_level)` AS SHIPPED puts FOUR bytes on the wire (`00 fru lvl 00`) for every argument: a
+fan tray with the R1.0/R2.0 command set answers C7h and sets nothing, an R3.0 one executes it and reads the fourth
+byte as "local control disabled".  FRU 3 of the power-on BMC is an R2.0 tray, FRU 2 an R3.0 tray with local
+control enabled: the as-shipped call fails on the first and switches local control off on the second; the
+intended call sets the override level on both and leaves local control alone. -/
+theorem shipped_set_fan_level_wrong (fru lvl : Nat) (s : BmcState) (h1 : fru < 256) (h2 : lvl < 256) :
+    (api_set_fan_level_shipped fru lvl).request = .ok { netfn := 0x2c, lun := 0, cmd := 0x15, data := [0, fru, lvl, 0] } ∧
+    (api_set_fan_level_shipped fru lvl).run s =
+      (if (get_fan fru s).r3 then (set_fan_level fru lvl (some 0) s, .ok .unit) else (s, .ccError 0xc7)) ∧
+    (api_set_fan_level fru lvl).run s = present (run (.setFanLevel fru lvl) s) ∧
+    (api_set_fan_level_shipped 3 9).run {} = ({}, .ccError 0xc7) ∧
+    (get_fan 2 ((api_set_fan_level_shipped 2 9).run {}).1).localEnabled = some 0 ∧
+    (get_fan 2 (run (.setFanLevel 2 9) {}).1).localEnabled = some 1 ∧
+    (get_fan 3 (run (.setFanLevel 3 9) {}).1).overrideLevel = 9 := by
+  obtain ⟨q1, q2⟩ := set_fan_level_shipped_run fru lvl s h1 h2
+  refine ⟨q1, q2, ?_, ?_, ?_, by decide, by decide⟩
+  · rw [write_set_fan_level fru lvl s h1 h2]; simp [run, present, Result.toOutcome]
+  · rw [(set_fan_level_shipped_run 3 9 {} (by decide) (by decide)).2]; decide
+  · rw [(set_fan_level_shipped_run 2 9 {} (by decide) (by decide)).2]; decide
+
+/-- an OEM link (link type F0h = `LinkDescriptor.TYPE_OEM0`, four lanes, extension 1, grouping 77h) -/
+def oemPort : Port := { hasLink := true, flags := 15, linkType := 0xf0, ext := 1, grouping := 0x77, state := 1 }
+/-- a BMC whose fabric channel 5 carries that link -/
+def oemState : BmcState := (run (.setPortState 1 5 oemPort) {}).1
+
+/-- `set_port_state(LinkDescriptor(type=TYPE_OEM0, …), ENABLE)` AS SHIPPED tells the BMC about a link of type 00h (the
+4-bit request member cuts F0h), and `get_port_state` of a channel that carries an F0h link returns `type = 0,
+sig_class = 15`, which no published constant names; the intended operations write F0h and read `TYPE_OEM0`. -/
+theorem shipped_oem_link_type_wrong :
+    oemState.Wf ∧
+    (get_port 1 5 ((api_set_port_state_type8_shipped 1 5 oemPort).run {}).1).linkType = 0 ∧
+    (get_port 1 5 ((api_set_port_state_type8 1 5 oemPort).run {}).1).linkType = 0xf0 ∧
+    ((getPortState false 5 1 true).run oemState).2 =
+      .ok (.port (some { channel := 5, iface := 1, flags := 15, linkType := 0, sigClass := 15, ext := 1, grouping := 0x77, state := 1 })) ∧
+    ((api_get_port_state 5 1).run oemState).2 =
+      .ok (.port (some { channel := 5, iface := 1, flags := 15, linkType := 0xf0, sigClass := 0, ext := 1, grouping := 0x77, state := 1 })) := by
+  have hr : (Call.setPortStateType8 1 5 oemPort).InRange := by
+    refine ⟨by decide, by decide, rfl, ⟨by decide, by decide, by decide⟩, by decide, by decide⟩
+  have hw : oemState.Wf := wf_run (.setPortState 1 5 oemPort) _ hr wf_init
+  refine ⟨hw, ?_, ?_, ?_, ?_⟩
+  · rw [set_port_state_type8_shipped_run 1 5 oemPort {} hr]; decide
+  · rw [write_set_port_state_type8 1 5 oemPort {} hr]; decide
+  · rw [get_port_state_split_run 5 1 oemState (by decide) (by decide) (port_wf 1 5 oemState hw) (by decide)]; decide
+  · rw [read_get_port_state 5 1 oemState (by decide) (by decide) hw]; decide
+
+/-- `get_sensor_reading` AS SHIPPED (`states1 | states2 << 8`): whenever the response of a conforming BMC carries
+both state bytes, the result has bit 15 set - "state 15", which no sensor has: it is the reserved bit 7 of byte 5
+("returned as 1b, ignore on read", IPMI table 35-15).  The intended operation returns the mask of the states 0..14. -/
+theorem shipped_sensor_state15_wrong (num lun : Nat) (s : BmcState) (h : num < 256) (hw : s.Wf) (a b : Nat)
+    (hu : (get_sensor lun num s).unavailable = false)
+    (h1 : (get_sensor lun num s).states1 = some a) (h2 : (get_sensor lun num s).states2 = some b) :
+    ((getSensorReading false num lun true).run s).2 =
+      .ok (.optNatPair (some (get_sensor lun num s).reading) (some (a + 256 * b + 0x8000))) ∧
+    ((api_get_sensor_reading num lun).run s).2 = .ok (.optNatPair (some (get_sensor lun num s).reading) (some (a + 256 * b))) ∧
+    (run (.getSensorReading num lun) s).2 = .optNatPair (some (get_sensor lun num s).reading) (some (a + 256 * b)) := by
+  refine ⟨?_, ?_, ?_⟩
+  · rw [get_sensor_reading_rawbit_run num lun s h (sensor_wf lun num s hw) a b hu h1 h2]
+  · rw [read_get_sensor_reading num lun s h hw]; simp [get_sensor_reading, hu, h1, h2]
+  · simp [run, get_sensor_reading, hu, h1, h2]
+
+/-- …and such sensors exist: sensor 2 on LUN 0 of the power-on BMC answers `11 C0 C2 86` - states 1, 6, 7, 9, 10 -/
+example :
+    (get_sensor 0 2 {}).unavailable = false ∧ (get_sensor 0 2 {}).states1 = some 0xc2 ∧ (get_sensor 0 2 {}).states2 = some 6 ∧
+    (handle {} { netfn := 4, lun := 0, cmd := 0x2d, data := [2] }).2 = [0, 0x11, 0xc0, 0xc2, 0x86] := by
+  decide
 
 /-! ## non-vacuity: the hypotheses are satisfiable by non-trivial objects, the conclusions say something -/
 
